@@ -4,7 +4,7 @@ use dfv::canon::compare;
 use dfv::cases::Case;
 use dfv::engine::*;
 use dfv::qgen::GenCfg;
-use dfv::refint::{RefErr, RefOpts};
+use dfv::refint::RefErr;
 use vcommon::{json, Args, Report, Rng};
 
 const REQUIRED_FEATURES: &[&str] = &[
@@ -75,8 +75,18 @@ fn one_case(rep: &Report, rng: &mut Rng, cfg: &GenCfg, systematic: bool) {
                 }
                 (_, Ok(rows)) => {
                     rep.case(fp, true);
+                    let msg = e.to_string();
+                    let kind = if msg.contains("Physical input schema should be the same as the one converted from logical input schema") {
+                        if msg.contains("field nullability") { "internal-error:physical-logical-nullability".to_string() } else { "internal-error:physical-logical-field-names".to_string() }
+                    } else if msg.contains("aggregate_statistics") && msg.contains("does not match with the projection expression") {
+                        "internal-error:aggregate-statistics-field-name".to_string()
+                    } else if cls == ErrClass::OptimizerFailure && msg.contains("No field named") {
+                        "optimizer-failure:no-field-named".to_string()
+                    } else {
+                        format!("{cls:?}")
+                    };
                     rep.violation(
-                        &format!("engine-fails-where-reference-succeeds/{cls:?}"),
+                        &format!("engine-fails-where-reference-succeeds/{kind}"),
                         case.witness(None, Some(rows), &format!("engine error: {}", e.to_string().chars().take(400).collect::<String>())),
                     );
                 }
@@ -107,11 +117,17 @@ fn one_case(rep: &Report, rng: &mut Rng, cfg: &GenCfg, systematic: bool) {
                 return;
             }
             if let Err(diff) = compare(&out.rows, &rows, &case.mode) {
-                // known deviation: INTERSECT ALL / EXCEPT ALL evaluated as semi / anti join
-                if case.feats.contains("intersect-all") || case.feats.contains("except-all") {
-                    if let Ok(alt) = case.reference_with(RefOpts { setop_all_semi_anti: true }) {
-                        if compare(&out.rows, &alt, &case.mode).is_ok() {
-                            rep.violation("setop-all-multiplicity", case.witness(Some(&out.rows), Some(&rows), &diff));
+                // 1. documented engine deviations, modelled in the reference
+                if let Some(sig) = dfv::cases::explain_by_known_deviation(&case, &out.rows) {
+                    rep.violation(&sig, case.witness(Some(&out.rows), Some(&rows), &diff));
+                    return;
+                }
+                // 2. localisation by feature toggle: does switching one engine feature off restore agreement?
+                for (key, sig) in [("datafusion.optimizer.enable_topk_dynamic_filter_pushdown", "topk-dynamic-filter-drops-rows")] {
+                    if let Some(rows2) = rerun_with(&case, key, "false") {
+                        if compare(&rows2, &rows, &case.mode).is_ok() {
+                            let sig = if case.feats.contains("union-all") { format!("{sig}/union-all") } else { sig.to_string() };
+                            rep.violation(&sig, case.witness(Some(&out.rows), Some(&rows), &format!("{diff}; agrees with the reference when {key}=false")));
                             return;
                         }
                     }
@@ -122,6 +138,22 @@ fn one_case(rep: &Report, rng: &mut Rng, cfg: &GenCfg, systematic: bool) {
             }
         }
     }
+}
+
+/// Re-run the case's SQL with one configuration key changed (same tables, same layout).
+fn rerun_with(case: &Case, key: &str, value: &str) -> Option<Vec<dfv::value::Row>> {
+    let sql = case.sql.clone();
+    vcommon::par::guard(|| {
+        let rt = current_thread_rt();
+        rt.block_on(async {
+            let ctx = default_ctx(3, 3);
+            ctx.sql(&format!("SET {key} = {value}")).await.ok()?.collect().await.ok()?;
+            register_db_layout(&ctx, &case.db, &case.layout).ok()?;
+            run_sql(&ctx, &sql).await.ok().map(|o| o.rows)
+        })
+    })
+    .ok()
+    .flatten()
 }
 
 fn run(args: &Args) -> i32 {
